@@ -19,6 +19,15 @@ EXTRA = [
     (80, 2, 0, '#let f(a: 1, b: 2, ..c) = (a: 1, b: 2, c: 3, d: 4)\n#f(b: 1, a: 2)\n'),
     (0, 4, 0, '#table(columns: 3, [a], [b], [c], [d])\n/* @typstyle off */ #f( 1 )\n'),
 ]
+# documents that use one feature a few hundred times, placed first in every history: state that a call leaves behind
+# (a counter, a cache, a budget) would have built up by the time the other documents are formatted
+STRESS = [
+    (80, 2, 0, "".join("// @typstyle off\n#let v%d  =  ( %d ,  2 )\n" % (i, i) for i in range(300))),
+    (80, 2, 1, "".join('#import "m%d.typ": z%d, y, x as w\n' % (i, i) for i in range(200))),
+    (40, 2, 0, "".join("#table(columns: 2, [a%d], [b], [c], [d])\n" % i for i in range(120))),
+    (60, 4, 0, "#let deep = " + "(" * 90 + "1," + ",)" * 90 + "\n" + "#let chain = a" + ".b(1)" * 120 + "\n"),
+    (80, 2, 0, "".join("$ sum_(i=%d)^n (a_i + b_i) / 2 $ /* c%d */ text #strong[x%d]\n\n" % (i, i, i) for i in range(150))),
+]
 
 
 def sched(case_list, threads, rounds, seed, timeout=3000):
@@ -51,7 +60,7 @@ def run(tier, seed, replay=None):
         return ck.finish()
     rng = SplitMix(seed * 13 + 1)
     fx = cases.fixtures()
-    cs = list(EXTRA)
+    cs = list(STRESS) + list(EXTRA)
     if replay and isinstance(replay.get("input"), dict) and "source" in replay["input"]:
         i = replay["input"]
         cs.insert(0, (i.get("width", 80), i.get("tab", 2), int(i.get("reorder", 0)), i["source"]))
@@ -73,6 +82,16 @@ def run(tier, seed, replay=None):
         ck.oblige("K9 run completes", False, str(e)[-1500:])
         ck.violation("broken-obligation", {"failing": ck.failed_obligations()}, no_input=True, tag="eval")
         return ck.finish()
+    # the same cases alone, each in its own process: what a call returns must not depend on the calls before it
+    iso_idx = list(range(len(STRESS), min(len(cs), len(STRESS) + 12))) + [rng.below(len(cs)) for _ in range(28 if tier == "quick" else 200)]
+    iso_idx = sorted(set(iso_idx))
+    iso = {}
+    for i in iso_idx:
+        c = cs[i]
+        o = pipe([TYV, "fmt"], ["%d %d %d %s" % (c[0], c[1], c[2], hexs(c[3]))])[0]
+        iso[i] = o
+    iso_diff = [i for i in iso_idx if iso[i].split(" ")[0] != ref[i].split(" ")[0] or (iso[i].startswith("ok ") and iso[i] != ref[i])]
+    ck.extra["k9_isolated_cases"] = len(iso_idx)
     ck.extra["k9_s"] = round(time.time() - t0, 1)
     ck.extra["k9_cases"] = len(cs)
     ck.extra["k9_threads"] = threads
@@ -88,6 +107,16 @@ def run(tier, seed, replay=None):
     ck.oblige("K9: %d calls from %d threads x %d rounds in shuffled orders all equal the sequential result" % (len(cs) * threads * rounds, threads, rounds),
               mism == 0, "mismatches: %d" % mism)
     ck.oblige("K9: three separate processes return byte-identical results on %d cases" % len(cs), not proc_diff, "first index %r" % proc_diff[:1])
+    ck.oblige("K9: %d cases formatted alone in a fresh process equal their result inside the history" % len(iso_idx), not iso_diff,
+              "first index %r" % iso_diff[:1])
+    for i in iso_diff[:3]:
+        c = cs[i]
+        ck.violation("counterexample", {
+            "what": "the same (text, config) returns a different result after other documents were formatted in the same process than alone in a fresh process",
+            "input": {"width": c[0], "tab": c[1], "reorder": c[2], "source": c[3]},
+            "alone": iso[i][:1500], "in_history": ref[i][:1500],
+            "history": "the %d cases before it, starting with the stress documents (vlib/c17.py STRESS)" % i,
+            "reproduce": "tyv sched 1 0 1 over the check's case list vs. tyv fmt on this case alone"})
     seen = set()
     for d in diffs:
         i = int(d[1])
